@@ -676,6 +676,14 @@ void run_case(Chooser& c) {
   bool main_registered = !world.alive_ids_a.empty();
   if (main_registered) tl_id_a = world.alive_ids_a[0];
 
+  // Function-local statics behind the counters (id allocators, storage vectors) are initialised by whoever
+  // comes first. With private churn that could be two worker threads racing in the first case of a process;
+  // the ordering C++ guarantees for static initialisation is not the subject here, so the main thread
+  // touches every kind once before any thread exists (this also seeds the instance-id free lists).
+  if (!getenv("C19_NO_WARMUP")) {  // C19_NO_WARMUP=1 + corpus/c19_counters/engine_static_guard_weak.replay.json shows the engine artefact
+    babylon::ConcurrentAdder a; babylon::ConcurrentSummer s; babylon::ConcurrentMaxer mx; babylon::ConcurrentMiner mn; Cetl ce;
+    (void)a.value(); (void)s.value(); (void)mx.value(); (void)mn.value();
+  }
   int nobj = c.range(1, 3);
   dsched::describe("objs[");
   for (int i = 0; i < nobj; i++) {
